@@ -263,6 +263,12 @@ class OptionsDictionary(object):
         if not (value is None and meta['allow_none']):
             # If only values is declared
             if values is not None:
+                if types is list and not isinstance(value, list):
+                    vtype = type(value).__name__
+                    if isinstance(value, str):
+                        value = f"'{value}'"
+                    self._raise(f"Value ({value}) of option '{name}' has type '{vtype}', but "
+                                "type 'list' was expected.", exc_type=TypeError)
                 check_vals = [value] if types is not list else value
                 for val in check_vals:
                     if val not in values:
